@@ -355,6 +355,20 @@ func (rc refCtx) fieldMembers(f encField) []member {
 			ms = append(ms, member{key: key + "Error", val: xStr([]byte(*rerr))})
 		}
 		return ms
+	case "errors":
+		arr := node{kind: 'a', elems: []node{}}
+		for _, e := range f.Errs {
+			ms, rerr := rc.errMembers("error", e)
+			if rerr != nil { // each element is a field of its own object: it reports its failure there
+				ms = append(ms, member{key: "errorError", val: xStr([]byte(*rerr))})
+			}
+			o := node{kind: 'o'}
+			for _, m := range ms {
+				o.keys, o.elems = append(o.keys, m.key), append(o.elems, m.val)
+			}
+			arr.elems = append(arr.elems, o)
+		}
+		return []member{{key: key, val: arr}}
 	case "ns":
 		return []member{{key: key, ns: true}}
 	case "skip":
@@ -562,6 +576,11 @@ func countFaults(op *encOp) (n int) {
 		}
 		for _, s := range f.Fields {
 			walkF(s)
+		}
+		for _, e := range f.Errs {
+			if e.O.Nil || e.O.Panic != nil {
+				n++
+			}
 		}
 	}
 	for _, c := range op.Ctx {
